@@ -797,7 +797,7 @@ mtree_entry_new(struct archive_write *a, struct archive_entry *entry,
 {
 	struct mtree_entry *me;
 	const char *s;
-	int r;
+	int r, ret = ARCHIVE_OK;
 	static const struct archive_rb_tree_ops rb_ops = {
 		mtree_entry_cmp_node, mtree_entry_cmp_key
 	};
@@ -826,8 +826,18 @@ mtree_entry_new(struct archive_write *a, struct archive_entry *entry,
 	me->gid = archive_entry_gid(entry);
 	if ((s = archive_entry_uname(entry)) != NULL)
 		archive_strcpy(&me->uname, s);
+	else if (archive_entry_uname_w(entry) != NULL) {
+		archive_set_error(&a->archive, ARCHIVE_ERRNO_FILE_FORMAT,
+		    "Can't translate uname to the current locale");
+		ret = ARCHIVE_WARN;
+	}
 	if ((s = archive_entry_gname(entry)) != NULL)
 		archive_strcpy(&me->gname, s);
+	else if (archive_entry_gname_w(entry) != NULL) {
+		archive_set_error(&a->archive, ARCHIVE_ERRNO_FILE_FORMAT,
+		    "Can't translate gname to the current locale");
+		ret = ARCHIVE_WARN;
+	}
 	if ((s = archive_entry_fflags_text(entry)) != NULL)
 		archive_strcpy(&me->fflags_text, s);
 	archive_entry_fflags(entry, &me->fflags_set, &me->fflags_clear);
@@ -865,7 +875,7 @@ mtree_entry_new(struct archive_write *a, struct archive_entry *entry,
 	}
 
 	*m_entry = me;
-	return (ARCHIVE_OK);
+	return (ret);
 }
 
 static void
